@@ -245,8 +245,9 @@ class ShapeDomain(Domain):
                         else:
                             new[new.index(-1)] = '*'.join(str(x) for x in left)
                     # a reshape regroups adjacent axes in order; symbolic dimensions may not change places
-                    osym = [d for d in v.dims if isinstance(d, str)]
-                    nsym = [d for d in new if isinstance(d, str)]
+                    # (a product dimension 'r*c' stands for its factors, in that order)
+                    osym = [f_ for d in v.dims if isinstance(d, str) for f_ in d.split('*')]
+                    nsym = [f_ for d in new if isinstance(d, str) for f_ in d.split('*')]
                     if osym != nsym and sorted(map(str, osym)) == sorted(map(str, nsym)):
                         self.interp.emit('reshape-reorders', old=v.dims, new=tuple(new), node=node)
                     return Sh(tuple(new))
@@ -345,6 +346,29 @@ class ShapeDomain(Domain):
                 self.interp.emit('contract-mismatch', a=tuple(da), b=tuple(db_), node=node)
             r_ = tuple(d for i, d in enumerate(da) if i not in ia) + tuple(d for j, d in enumerate(db_) if j not in ib)
             return Sh(r_) if r_ else Scalar()
+        if last in ('dot', 'matmul') and len(args) == 2 and not kwargs and all(isinstance(a, Sh) for a in args) and all(1 <= len(a.dims) <= 2 for a in args):
+            return self.binop(ast.MatMult(), args[0], args[1], node)        # for 1-D / 2-D operands np.dot is the matrix product
+        if last in ('moveaxis', 'swapaxes') and len(args) == 3 and isinstance(a0, Sh) and all(isinstance(a, Const) and isinstance(a.v, int) for a in args[1:]):
+            n = len(a0.dims)
+            i, j = args[1].v, args[2].v
+            if -n <= i < n and -n <= j < n:
+                d = list(a0.dims)
+                if last == 'swapaxes':
+                    d[i], d[j] = d[j], d[i]
+                else:
+                    x = d.pop(i % n)
+                    d.insert(j % n, x)
+                return Sh(tuple(d))
+        if last == 'transpose' and isinstance(a0, Sh) and len(args) == 1 and not kwargs:
+            return Sh(tuple(reversed(a0.dims)))
+        if dotted in ('math.prod', 'numpy.prod') and len(args) == 1 and isinstance(a0, Tup) and a0.items and all(isinstance(d, (Dim, Const)) for d in a0.items):
+            facs = [d.n if isinstance(d, Dim) else d.v for d in a0.items]
+            if all(isinstance(f_, int) for f_ in facs):
+                out = 1
+                for f_ in facs:
+                    out *= f_
+                return Const(out)
+            return Dim('*'.join(str(f_) for f_ in facs if f_ != 1)) if len([f_ for f_ in facs if f_ != 1]) != 1 else Dim([f_ for f_ in facs if f_ != 1][0])
         if last in ('ravel',) and isinstance(a0, Sh):
             return self.method(a0, 'ravel', list(args[1:]), kwargs, node)
         if dotted == 'builtins.hasattr' and isinstance(a0, Sh) and len(args) == 2 and isinstance(args[1], Const):
